@@ -232,6 +232,106 @@ def feeder_rules(facts):
     return [t.rr]
 
 
+
+def block_loops(facts):
+    """SIBLING/block-loop: the single-thread loop and the feeder consume the source the same way: every block read is
+    handed on (encoded / enqueued) before the next read, and the loop is left only on the end-of-input answer (0 samples)
+    or on an error."""
+    t = R("SIBLING/block-loop", "both block loops hand every block on and stop only at end of input (0 samples) or on an error")
+    READ = r"Source>::read_samples"
+    drivers = []
+    for b in facts.body_list:
+        if b.kind == "Fn" and b.module in ("par", "coding") and any(
+                re.search(READ, (tt.get("fn") or {}).get("full") or "") for _bi, tt in b.calls()):
+            drivers.append(b)
+    if len(drivers) != 2:
+        raise FactError("expected one block loop per mode, found %s" % [b.id for b in drivers])
+    for b in drivers:
+        rds = [bi for bi, tt in b.calls() if re.search(READ, (tt.get("fn") or {}).get("full") or "")]
+        if len(rds) != 1:
+            t.row(False, b.id, "one-read-site", "%d read_samples call sites" % len(rds))
+            continue
+        rd = rds[0]
+        after = b.reachable_after(rd)
+        scc = {x for x in after if rd in b.reachable_after(x)} | {rd}
+        if len(scc) < 2:
+            t.row(False, b.id, "read-in-loop", "read_samples is not called in a loop")
+            continue
+        # (1) hand-on: from the read, the next read is reached only through the consumer
+        cons = [bi for bi, tt in b.calls() if (tt.get("fn") or {}).get("name") in ("enqueue_encode", "add_frame") and bi in scc]
+        path = b.find_path(b.succ[rd][0], {rd}, removed=set(cons)) if b.succ[rd] else None
+        from .lib_mpt import path_str
+        t.row(bool(cons) and path is None, b.id, "every-block-handed-on",
+              "a block that was read can be dropped: the loop returns to read_samples without %s (%s)"
+              % ("enqueue_encode/add_frame", path_str(b, path) if path else "no consumer call in the loop"), None, b.loc(rd, "term"))
+        # (2) exits
+        nexit = 0
+        for u in sorted(scc):
+            for v in b.succ[u]:
+                if v in scc or b.term(v)["k"] == "unreachable":
+                    continue
+                nexit += 1
+                tm = b.term(u)
+                ok, why = False, "the loop is left from a %s terminator" % tm["k"]
+                if tm["k"] == "switch":
+                    labs = [val for val, tgt in tm["vals"] if tgt == v]
+                    if tm["else"] == v:
+                        labs.append("else")
+                    e = lexpr(b, tm["d"])
+                    ok, why = _exit_class(e, labs, [val for val, _t in tm["vals"]])
+                t.row(ok, b.id, "exit:%s" % (why if ok else "other-condition"),
+                      "%s leaves its block loop on a condition other than end of input or an error: %s (switch at %s on %s, "
+                      "arm %s). Blocks the source still has are never encoded, and the other mode keeps reading"
+                      % (b.id, why, b.loc(u, "term"), lshow(e)[:100] if tm["k"] == "switch" else "-",
+                         labs if tm["k"] == "switch" else "-"), None, b.loc(u, "term"))
+        if nexit < 2:
+            t.row(False, b.id, "exits", "found %d loop exits; expected the end-of-input exit and at least one error exit" % nexit)
+    t.rr.require_floor(7, "block-loop obligations")
+    return [t.rr]
+
+
+def _from_read(e):
+    """Does the value derive from the read_samples result (its Ok / Continue payload)?"""
+    from .lib_expr import contains
+    return contains(e, lambda x: isinstance(x, tuple) and x and x[0] == "call" and re.search(r"read_samples$", x[1] or ""))
+
+
+def _exit_class(e, labs, vals):
+    """Classify a loop-exit arm: ('error' | 'end-of-input') or not allowed."""
+    from .lib_expr import strip_casts
+    e = strip_casts(e)
+    if isinstance(e, tuple) and e and e[0] in ("discr",):
+        # discriminant of a Result / ControlFlow: the exit must be the Err / Break arm (1)
+        if labs == [1] or (labs == ["else"] and vals == [0]):
+            return True, "error"
+        return False, "the Ok arm of a result leaves the loop"
+    if isinstance(e, tuple) and e and e[0] == "un" and e[1] == "Not":
+        ok, why = _exit_class(e[2], ["else"] if labs == [0] else [0], [0])
+        return ok, why
+    zero = lambda x: isinstance(x, tuple) and x and x[0] == "c" and x[1] == 0
+    one = lambda x: isinstance(x, tuple) and x and x[0] == "c" and x[1] == 1
+    if isinstance(e, tuple) and e and e[0] == "bin" and _from_read(e):
+        op, a, c = e[1], strip_casts(e[2]), strip_casts(e[3])
+        true_exit = labs == ["else"] and vals == [0] or labs == [1]
+        false_exit = labs == [0]
+        if not (true_exit or false_exit):
+            return False, "unrecognised arm"
+        # predicates equivalent to `samples == 0` on an unsigned count
+        iszero = (op == "Eq" and (zero(a) or zero(c))) or (op == "Lt" and one(c)) or (op == "Le" and zero(c)) \
+            or (op == "Gt" and one(a)) or (op == "Ge" and zero(a))
+        nonzero = (op == "Ne" and (zero(a) or zero(c))) or (op == "Gt" and zero(c)) or (op == "Ge" and one(c)) \
+            or (op == "Lt" and zero(a)) or (op == "Le" and one(a))
+        if (iszero and true_exit) or (nonzero and false_exit):
+            return True, "end-of-input"
+        return False, "comparison of the sample count that is not `== 0`"
+    if _from_read(e) and isinstance(e, tuple) and e[0] in ("proj", "call", "l", "p"):
+        # switch on the count itself
+        if labs == [0]:
+            return True, "end-of-input"
+        return False, "a non-zero sample count leaves the loop"
+    return False, "condition does not test the read result"
+
+
 def _walk(e):
     yield e
     if isinstance(e, tuple):
@@ -378,6 +478,11 @@ def run(facts, tier, ctx):
     out += type_shape(facts)
     out += worker_pairing(facts)
     out += feeder_rules(facts)
+    out += block_loops(facts)
     out += sibling_encoder(facts)
     out += shared_state(facts)
+    # the two modes measure a frame differently: the worker serialises it (precompute) and add_frame takes the byte length,
+    # the single-thread loop asks count_bits().  STREAMINFO min/max frame size agree only if write == count_bits (C08).
+    from . import c08
+    out += c08.size_rules(facts)
     return out
